@@ -135,8 +135,15 @@ func vrfC11Server(r *verifrt.R, c *verifrt.Case) {
 	if inner != "" {
 		c.Violation("harness-panic", "panic in the C11 server script: %s", inner)
 	}
+	h.S.mu.Lock()
+	npanics := len(h.S.panics)
+	h.S.mu.Unlock()
 	if outer != "" {
-		c.Violation("bubble-did-not-exit:"+outer, "after the client closed the connection and released every handler the bubble could not exit: %s\n%s", outer, h.hist())
+		if npanics > 0 {
+			r.Event("server_bubble_left_goroutines_after_serve_loop_panic", 1)
+		} else {
+			c.Violation("bubble-did-not-exit:"+outer, "after the client closed the connection and released every handler the bubble could not exit: %s\n%s", outer, h.hist())
+		}
 	}
 	h.corruptions()
 	h.S.mu.Lock()
@@ -913,14 +920,14 @@ func TestVerif_C11(t *testing.T) {
 		return quick
 	}
 	for _, role := range []string{"server", "client"} {
-		r.Require(role+"_exact_fills_accepted", q(400, 4000))
-		r.Require(role+"_overflows_rejected", q(150, 1500))
+		r.Require(role+"_exact_fills_accepted", q(400, 3000))
+		r.Require(role+"_overflows_rejected", q(120, 900))
 		r.Require(role+"_overflows_with_batched_credit_pending", q(15, 100))
 		r.Require(role+"_overflow_from_nonzero_window", q(30, 200))
-		r.Require(role+"_fills_after_window_update", q(150, 1500))
-		r.Require(role+"_fills_racing_with_reads", q(40, 400))
-		r.Require(role+"_overflow_of_stream_window", q(40, 400))
-		r.Require(role+"_overflow_of_connection_window", q(20, 200))
-		r.Require(role+"_body_delivery_checks", q(150, 1500))
+		r.Require(role+"_fills_after_window_update", q(150, 1000))
+		r.Require(role+"_fills_racing_with_reads", q(40, 300))
+		r.Require(role+"_overflow_of_stream_window", q(40, 300))
+		r.Require(role+"_overflow_of_connection_window", q(15, 100))
+		r.Require(role+"_body_delivery_checks", q(150, 1000))
 	}
 }
